@@ -91,8 +91,7 @@ func posOfBlock(e *Engine, b *ssa.BasicBlock) string {
 }
 
 // loopBackEdge checks that the invariants are re-established along a back edge.
-func (e *Engine) loopBackEdge(f *frame, li *loopInfo, latch, header *ssa.BasicBlock, st *State) {
-	cond := f.econd[edge{latch, header}]
+func (e *Engine) loopBackEdge(f *frame, li *loopInfo, latch, header *ssa.BasicBlock, st *State, cond *smt.Term) {
 	bs := st.clone()
 	bs.Reach = cond
 	// values of the header phis along this edge
